@@ -3,6 +3,7 @@ import RichModel.Drv.Ratio
 import RichModel.Model.Table
 import RichModel.Gen.CellWidths
 import RichModel.Gen.TableBoxes
+import RichModel.Model.Frames
 /-
 Driver handlers for property C07 (tables): the width arithmetic (Drv/Ratio) and the table model.
 
@@ -19,43 +20,56 @@ open RichModel RichModel.Proto RichModel.Drv.Ratio
 
 def cw : Char → Nat := charWidthT Gen.cellWidths
 
+/-- One tabulated width of a cell: `none` in a field = real rich RAISED there (a cell whose renderable raises). -/
 structure OEntry where
-  meas : Measurement
-  lines : List (List Char)
+  meas : Option Measurement
+  lines : Option (List (List Char))
 
-abbrev Oracle := Array (Option OEntry)
+abbrev Oracle := Array OEntry
 
-def decEntry (s : String) : Option OEntry :=
+/-- entry = `<min max | !>#<k | !>#line/line/…` -/
+def decEntry (s : String) : OEntry :=
   match s.splitOn "#" with
   | [m, k, body] =>
-    match m.splitOn " " with
-    | [mn, mx] =>
-      let lines := if k == "0" then [] else (body.splitOn "/").map decStr
-      some { meas := ⟨decInt mn, decInt mx⟩, lines := lines }
-    | _ => none
-  | _ => none
+    let meas := match m.splitOn " " with
+      | [mn, mx] => some ⟨decInt mn, decInt mx⟩
+      | _ => none
+    let lines := if k == "!" then none else some (if k == "0" then [] else (body.splitOn "/").map decStr)
+    { meas := meas, lines := lines }
+  | _ => { meas := none, lines := none }
 
 def decOracle (s : String) : Oracle := ((s.splitOn "|").map decEntry).toArray
 
 def decPool (s : String) : Array Oracle := if s.isEmpty then #[] else ((s.splitOn ";").map decOracle).toArray
 
-def Oracle.has (o : Oracle) (w : Nat) : Bool := match o[w]? with | some (some _) => true | _ => false
+/-- consultation status: 0 = answered, 1 = outside the tabulated range, 2 = real rich raised there -/
+def Oracle.measStatus (o : Oracle) (w : Nat) : Nat := match o[w]? with | some e => if e.meas.isSome then 0 else 2 | none => 1
+def Oracle.renderStatus (o : Oracle) (w : Nat) : Nat := match o[w]? with | some e => if e.lines.isSome then 0 else 2 | none => 1
 
 def Oracle.toCell (o : Oracle) : Cell :=
-  { measure := fun w => match o[w]? with | some (some e) => e.meas | _ => ⟨0, 0⟩,
-    renderLines := fun w => match o[w]? with | some (some e) => e.lines | _ => [] }
+  { measure := fun w => match o[w]? with | some e => e.meas.getD ⟨0, 0⟩ | _ => ⟨0, 0⟩,
+    renderLines := fun w => match o[w]? with | some e => e.lines.getD [] | _ => [] }
 
-def Oracle.toLines (o : Oracle) : Nat → List (List Char) := fun w => match o[w]? with | some (some e) => e.lines | _ => []
+def Oracle.toLines (o : Oracle) : Nat → List (List Char) := fun w => match o[w]? with | some e => e.lines.getD [] | _ => []
+
+def worst (l : List Nat) : Nat := l.foldl max 0
 
 /-- a box given by content: `raw:` then 8 lines separated by `/`, each 4 code points separated by `.` -/
 def decRawBox (body : String) : Option Box :=
   Box.ofLines? ((body.splitOn "/").map (fun l => (l.splitOn ".").filterMap (fun t => t.toNat?.map Char.ofNat)))
 
-def lookupBox (name : String) : Option (Option Box) :=
+/-- `self.box.substitute(options, safe=…)` (modelled by C08 in Model/Frames on indices into rich/box.py's constants, which
+`Gen.tableBoxes` lists in the same order — `Props/C07.table_boxes_agree`); a box given by content is in no substitution
+table and is not ascii. -/
+def lookupBox (name : String) (legacy asciiOnly safe : Bool) : Option (Option Box) :=
   if name == "-" then some none
-  else if name.startsWith "raw:" then (decRawBox (name.drop 4).toString).map some
-  else match Gen.tableBoxes.find? (·.1 == name) with
-    | some e => (Box.ofLines? e.2.2).map some
+  else if name.startsWith "raw:" then
+    if asciiOnly then (Gen.tableBoxes[Gen.asciiBox]?.bind (fun e => Box.ofLines? e.2.2)).map some
+    else (decRawBox (name.drop 4).toString).map some
+  else match Gen.tableBoxes.findIdx? (·.1 == name) with
+    | some i =>
+      let j := Frames.substituteBox { consoleWidth := 0, asciiOnly := asciiOnly, legacyWindows := legacy } safe i
+      (Gen.tableBoxes[j]?.bind (fun e => Box.ofLines? e.2.2)).map some
     | none => none
 
 /-- A decoded variant: the model table plus, per column, the oracles `getCells` will consult (same order). -/
@@ -88,8 +102,8 @@ def decVariant (pool : Array Oracle) (s : String) : Option Variant :=
   match s.splitOn ";" with
   | [fls, avail, opts, rows, cols] =>
     match fls.splitOn " ", opts.splitOn " " with
-    | [lr, mc, fr, nc, fneg, stw, fcz], [bx, sh, sf, se, sl, leading, pt, pr, pb, pl, pe, cp, ex, w, mw, ti, ca] =>
-      match lookupBox bx with
+    | [lr, mc, fr, nc, fneg, stw, fcz], [bx, sh, sf, se, sl, leading, pt, pr, pb, pl, pe, cp, ex, w, mw, ti, ca, safe, legacy, asciiOnly] =>
+      match lookupBox bx (decBool legacy) (decBool asciiOnly) (decBool safe) with
       | none => none
       | some box =>
         let colsD := if cols.isEmpty then [] else (cols.splitOn ",").map (decColumn pool)
@@ -120,24 +134,29 @@ def decVariant (pool : Array Oracle) (s : String) : Option Variant :=
     | _, _ => none
   | _ => none
 
-/-- All oracle consultations of `Table.render` are inside the tabulated range. -/
-def Variant.inRange (v : Variant) (r : Rendered) : Bool :=
+/-- The cells `_calculate_column_widths` MEASURES at `inner = max_width - extra`: status of the worst consultation. -/
+def Variant.measureStatus (v : Variant) (inner : Int) : Nat :=
   let t := v.t
-  let maxWidth := t.width.getD v.avail - t.extraWidth
-  let firstOk := maxWidth < 1 ||
-    ((t.columns.zip v.colOracles).all (fun co => co.1.width.isSome || co.2.all (·.has maxWidth.toNat)))
-  let reOk := match t.firstWidths v.fl maxWidth with
-    | some ws => if ws.sum > maxWidth then
-        -- fixed-width columns are not consulted on re-measure either, but asking is harmless
-        ((t.shrinkPre ws maxWidth).1.zip (t.columns.zip v.colOracles)).all
-          (fun wco => wco.1 < 1 || wco.2.1.width.isSome || wco.2.2.all (·.has wco.1.toNat))
-      else true
-    | none => true
-  let renderOk := (r.widths.zip v.colOracles).all (fun wo => wo.2.all (·.has wo.1.toNat))
+  let first := if inner < 1 then 0 else
+    worst ((t.columns.zip v.colOracles).map (fun co => if co.1.width.isSome then 0 else worst (co.2.map (·.measStatus inner.toNat))))
+  let re := match t.firstWidths v.fl inner with
+    | some ws => if ws.sum > inner then
+        worst (((t.shrinkPre ws inner).1.zip (t.columns.zip v.colOracles)).map
+          (fun wco => if wco.1 < 1 || wco.2.1.width.isSome then 0 else worst (wco.2.2.map (·.measStatus wco.1.toNat))))
+      else 0
+    | none => 0
+  max first re
+
+/-- The cells `_render` RENDERS at the final widths, and the title / caption at the table width. -/
+def Variant.renderStatus (v : Variant) (r : Rendered) : Nat :=
+  let t := v.t
+  -- `zip(*columns)`: only the first `n` cells of every column are rendered
+  let n := (zipRows (t.columns.map t.getCells)).length
+  let cells := worst ((r.widths.zip v.colOracles).map (fun wo => worst ((wo.2.take n).map (·.renderStatus wo.1.toNat))))
   let tw := (r.widths.sum + t.extraWidth).toNat
-  let annOk := (match v.titleO with | some o => o.has tw | none => true) &&
-               (match v.captionO with | some o => o.has tw | none => true)
-  firstOk && reOk && renderOk && annOk
+  let ann := max (match v.titleO with | some o => o.renderStatus tw | none => 0)
+                 (match v.captionO with | some o => o.renderStatus tw | none => 0)
+  max cells ann
 
 def encRendered (r : Rendered) : String := "W" ++ encInts r.widths ++ "L" ++ encStrList r.lines
 
@@ -149,35 +168,35 @@ def Variant.measureAns (v : Variant) : String :=
   if maxWidth < 0 then "|M0 0"
   else
     let inner := maxWidth - t.extraWidth
+    let st1 := v.measureStatus inner
+    if st1 == 2 then "|Merr:CellRaises" else
     match t.calcWidths v.fl inner with
-    | none => "|Merr:AssertionError"
+    | none => if st1 == 1 then "|M?" else "|Merr:AssertionError"
     | some ws =>
       let mw := ws.sum
-      -- consultations: the ones of calcWidths (first pass at `inner`, re-measure) and the final measure at `mw`
-      let firstOk := inner < 1 ||
-        ((t.columns.zip v.colOracles).all (fun co => co.1.width.isSome || co.2.all (·.has inner.toNat)))
-      let reOk := match t.firstWidths v.fl inner with
-        | some ws0 => if ws0.sum > inner then
-            ((t.shrinkPre ws0 inner).1.zip (t.columns.zip v.colOracles)).all
-              (fun wco => wco.1 < 1 || wco.2.1.width.isSome || wco.2.2.all (·.has wco.1.toNat))
-          else true
-        | none => true
-      let lastOk := mw < 1 ||
-        ((t.columns.zip v.colOracles).all (fun co => co.1.width.isSome || co.2.all (·.has mw.toNat)))
-      if firstOk && reOk && lastOk then
-        match t.richMeasure v.fl v.avail with
+      let st2 := if mw < 1 then 0 else
+        worst ((t.columns.zip v.colOracles).map (fun co => if co.1.width.isSome then 0 else worst (co.2.map (·.measStatus mw.toNat))))
+      let st := max st1 st2
+      if st == 2 then "|Merr:CellRaises"
+      else if st == 1 then "|M?"
+      else match t.richMeasure v.fl v.avail with
         | some m => "|M" ++ encMeas m
         | none => "|Merr:AssertionError"
-      else "|M?"
 
 def runVariant (pool : Array Oracle) (s : String) : String :=
   match decVariant pool s with
   | none => "unmodelled"
   | some v =>
     if !v.wf then "unmodelled"
-    else (match v.t.render v.fl cw v.avail with
-      | none => "err:AssertionError"
-      | some r => if v.inRange r then encRendered r else "unmodelled") ++ v.measureAns
+    else
+      let inner := v.t.width.getD v.avail - v.t.extraWidth
+      let st1 := v.measureStatus inner
+      (if st1 == 2 then "err:CellRaises" else
+        match v.t.render v.fl cw v.avail with
+        | none => if st1 == 1 then "unmodelled" else "err:AssertionError"
+        | some r =>
+          let st := max st1 (v.renderStatus r)
+          if st == 2 then "err:CellRaises" else if st == 1 then "unmodelled" else encRendered r) ++ v.measureAns
 
 def encPad : Option (Int × Int × Int × Int) → String
   | none => "-"
@@ -205,7 +224,7 @@ def handlers : List (String × (List String → String)) := Drv.Ratio.handlers +
   -- Box.get_top / get_row / get_bottom: name, which (top|bottom|head|row|mid|foot), edge, widths
   ("box.row", fun a => match a with
     | [name, which, edge, ws] =>
-      match lookupBox name with
+      match lookupBox name false false true with
       | some (some b) =>
         let widths := (decInts ws).map Int.toNat
         let e := decBool edge
